@@ -159,6 +159,7 @@ func (g *docGen) token() string {
 	if g.wonly {
 		if g.rng.Chance(1, 4) {
 			return g.rng.Pick([]string{`"a b"`, `""`, `"x"`, `"{ }"`, `"# not comment"`, `"  lead and trail  "`, `"<<EOF"`, `"{x}"`, "\"tab\there\"", "\"`bt`\"",
+				"\"say \\\"hi\\\"\"", "\"C:\\\\dir\"", "\"a\\nb\"", "\"\\<<x\"", "\"{\\\"k\\\":1}\"", "\"\\\\\"",
 				"`a b`", "``", "`x`", "`{ }`", "`# no comment`", "`  lead and trail  `", "`C:\\dir\\file`", "`say \"hi\"`", "`<<EOF`", "`{x}`"})
 		}
 		return g.rng.Pick(wWords)
